@@ -255,12 +255,18 @@ def deep_cases():
 
 
 def generate(rng, tier):
-    n = 400 if tier == "quick" else 6000
+    n = 450 if tier == "quick" else 6000
     cases = [exec_case(t, kind="deep-nesting", expect=bits(v), classes=[]) for t, v in deep_cases()]
     for t in CORPUS:
         cases.append(exec_case(t, kind="corpus", expect=None, classes=[]))
     for t, v in CORPUS_V:
         cases.append(exec_case(t, kind="corpus", expect=bits(v), classes=[]))
+    # every magnitude suffix, under both languages (the suffix letters are not language words)
+    for lang in ("en", "tr"):
+        for sfx, mul in (("k", 1e3), ("K", 1e3), ("M", 1e6), ("G", 1e9), ("T", 1e12), ("P", 1e15), ("Z", 1e18), ("Y", 1e21)):
+            cases.append(exec_case("5" + sfx, lang, kind="suffix-" + lang, expect=bits(5.0 * mul), classes=[]))
+            cases.append(exec_case("2%s + 1" % sfx, lang, kind="suffix-" + lang, expect=bits(2.0 * mul + 1.0), classes=[]))
+            cases.append(exec_case("x = 1,5%s * 2" % sfx, lang, kind="suffix-" + lang, expect=bits(1.5 * mul * 2.0), classes=[]))
     while len(cases) < n:
         style = rng.choices(["explicit", "tight", "jux", "wild", "assign"], [45, 15, 12, 18, 10])[0]
         depth = rng.randint(1, 5)
